@@ -46,6 +46,8 @@ def probe(path, want_data=True):
         st = _o['os.stat'](path)
     except FileNotFoundError:
         return fi
+    except ValueError:
+        return fi      # (embedded NUL: no such path can exist)
     except NotADirectoryError:
         fi.err = 'ENOTDIR'
         return fi
